@@ -11,9 +11,13 @@ import (
 	"net"
 	"net/http/httptest"
 	"os"
+	"runtime"
+	"sync"
+	"time"
 
 	"github.com/IrineSistiana/mosdns/v5/pkg/query_context"
 	"github.com/IrineSistiana/mosdns/v5/plugin/executable/cache"
+	"github.com/IrineSistiana/mosdns/v5/plugin/executable/redirect"
 	"github.com/IrineSistiana/mosdns/v5/plugin/executable/sequence"
 	"github.com/miekg/dns"
 
@@ -397,6 +401,213 @@ func runSweep(w *hx.Writer, id string, dim int, base qd, total, start, step, cnt
 	})
 }
 
+// ---------- redirect in front of a (lazy) cache ----------
+
+type lop struct {
+	age bool
+	n   int
+}
+
+func lname(i int) string { return fmt.Sprintf("n%d.", i) }
+func lid(s string) int {
+	if len(s) == 3 && s[0] == 'n' && s[2] == '.' && s[1] >= '0' && s[1] <= '9' {
+		return int(s[1] - '0')
+	}
+	return 99
+}
+
+// lkey is the key Cache.Exec derives for a query (name, A, IN) arriving as a
+// fresh query context.
+func lkey(i int) string {
+	q := new(dns.Msg)
+	q.SetQuestion(lname(i), dns.TypeA)
+	return cache.VerifGetMsgKey(query_context.NewContext(q).Q())
+}
+
+// runLazy drives the chain [redirect; cache; upstream] the way sequence does.
+// The upstream answers (when there is no response yet) with one A record owned
+// by the name it is asked for, whose address encodes that name. After every
+// query all lazy updates in flight are joined, so the store is quiescent when it
+// is looked at. One P: the goroutine of a lazy update starts running only when
+// the caller blocks, i.e. after the call has returned through redirect.
+func runLazy(w *hx.Writer, id string, lazy bool, m int, rules [][2]int, ops []lop) {
+	defer runtime.GOMAXPROCS(runtime.GOMAXPROCS(1))
+	lazyTTL := 0
+	if lazy {
+		lazyTTL = 86400
+	}
+	c := cache.NewCache(&cache.Args{Size: 1024, LazyCacheTTL: lazyTTL}, cache.Opts{})
+	defer c.Close()
+	var rs []string
+	for _, r := range rules {
+		rs = append(rs, lname(r[0])+" "+lname(r[1]))
+	}
+	rd, err := redirect.NewRedirect(&redirect.Args{Rules: rs})
+	if err != nil {
+		fail(id, "NewRedirect: %v", err)
+	}
+	var mu sync.Mutex
+	var cur *query_context.Context
+	sync_, bg := false, -1
+	upstream := sequence.ExecutableFunc(func(_ context.Context, qc *query_context.Context) error {
+		if qc.R() != nil {
+			return nil
+		}
+		q := qc.Q()
+		name := q.Question[0].Name
+		mu.Lock()
+		if qc == cur {
+			sync_ = true
+		} else {
+			bg = lid(name)
+		}
+		mu.Unlock()
+		r := new(dns.Msg)
+		r.SetReply(q)
+		r.Answer = []dns.RR{&dns.A{
+			Hdr: dns.RR_Header{Name: name, Rrtype: dns.TypeA, Class: dns.ClassINET, Ttl: 300},
+			A:   net.IPv4(10, 0, 0, byte(lid(name))),
+		}}
+		qc.SetResponse(r)
+		return nil
+	})
+	chain := []*sequence.ChainNode{{RE: rd}, {RE: c}, {E: upstream}}
+	keys := make([]string, m)
+	for i := range keys {
+		keys[i] = lkey(i)
+	}
+	owners := func(r *dns.Msg) []int {
+		var o []int
+		for _, rr := range r.Answer {
+			o = append(o, lid(rr.Header().Name))
+		}
+		return o
+	}
+	var cops, obs []string
+	for _, o := range ops {
+		if o.age {
+			cops = append(cops, hx.App("LAge", hx.Ni(o.n)))
+			obs = append(obs, hx.App("OAge", hx.Bool(c.VerifC10Backdate(keys[o.n], 400*time.Second))))
+			continue
+		}
+		q := new(dns.Msg)
+		q.SetQuestion(lname(o.n), dns.TypeA)
+		qCtx := query_context.NewContext(q)
+		mu.Lock()
+		cur, sync_, bg = qCtx, false, -1
+		mu.Unlock()
+		walker := sequence.NewChainWalker(chain, nil)
+		if err := walker.ExecNext(context.Background(), qCtx); err != nil {
+			fail(id, "chain: %v", err)
+		}
+		for _, k := range keys {
+			c.VerifC10LazyWait(k)
+		}
+		r := qCtx.R()
+		if r == nil || len(r.Question) != 1 {
+			fail(id, "no usable response")
+		}
+		ip := 99
+		if a, ok := r.Answer[len(r.Answer)-1].(*dns.A); ok && a.A.To4() != nil {
+			ip = int(a.A.To4()[3])
+		}
+		mu.Lock()
+		s, b := sync_, bg
+		mu.Unlock()
+		cops = append(cops, hx.App("LAsk", hx.Ni(o.n)))
+		obs = append(obs, hx.App("OAsk", hx.Ni(lid(r.Question[0].Name)), hx.NList(owners(r)), hx.Ni(ip),
+			hx.Bool(s), hx.Opt(b >= 0, hx.Ni(b))))
+	}
+	held := make([]string, m)
+	wrong := 0
+	for i, k := range keys {
+		it := c.VerifC10Item(k)
+		if it == nil || len(it.Question) != 1 {
+			held[i] = "None"
+			continue
+		}
+		if lid(it.Question[0].Name) != i {
+			wrong++
+		}
+		held[i] = hx.Some(hx.Tuple(hx.Ni(lid(it.Question[0].Name)), hx.NList(owners(it))))
+	}
+	rl := make([]string, len(rules))
+	for i, r := range rules {
+		rl[i] = hx.Tuple(hx.Ni(r[0]), hx.Ni(r[1]))
+	}
+	w.Emit("lazy", hx.Case{
+		ID:   id,
+		Coq:  hx.App("CLazy", hx.Bool(lazy), hx.List(rl), hx.List(cops), hx.List(obs), hx.List(held)),
+		Desc: map[string]any{"kind": "lazy", "lazy": lazy, "rules": len(rules), "steps": len(ops), "held_under_other_key": wrong},
+		FKey: "lazy",
+	})
+}
+
+type lazyCase struct {
+	lazy  bool
+	m     int
+	rules [][2]int
+	ops   []lop
+}
+
+func ask(n int) lop { return lop{n: n} }
+func age(n int) lop { return lop{age: true, n: n} }
+
+// names: 0, 1 targets; 2.. aliases
+func lazyCatalogue() []lazyCase {
+	var out []lazyCase
+	r1 := [][2]int{{2, 0}}
+	r3 := [][2]int{{2, 0}, {3, 0}, {4, 1}}
+	rc := [][2]int{{2, 0}, {0, 1}} // the target of one rule is the alias of another: no chaining
+	for _, lazy := range []bool{true, false} {
+		for _, rules := range [][][2]int{r1, nil, r3, rc} {
+			out = append(out,
+				// store target, let it go stale, ask alias, ask target
+				lazyCase{lazy, 5, rules, []lop{ask(0), age(0), ask(2), ask(0), ask(2)}},
+				// the entry is created through the alias
+				lazyCase{lazy, 5, rules, []lop{ask(2), age(0), ask(2), ask(0)}},
+				// stale hit on the target itself (control), then alias
+				lazyCase{lazy, 5, rules, []lop{ask(0), age(0), ask(0), ask(2), ask(0)}},
+				// several aliases, two targets
+				lazyCase{lazy, 5, rules, []lop{ask(0), ask(1), age(0), age(1), ask(3), ask(4), ask(0), ask(1), ask(2)}},
+				// nothing stale: plain hits through the aliases
+				lazyCase{lazy, 5, rules, []lop{ask(0), ask(2), ask(3), ask(0), age(4), ask(4), ask(1)}},
+				// stale twice in a row
+				lazyCase{lazy, 5, rules, []lop{ask(0), age(0), ask(2), age(0), ask(3), ask(0), age(0), age(0), ask(0)}},
+			)
+		}
+	}
+	return out
+}
+
+func genLazy(r *hx.RNG) lazyCase {
+	lc := lazyCase{lazy: r.Chance(3, 4), m: r.Range(3, 6)}
+	nt := r.Range(1, 2) // names 0..nt-1 are targets
+	if !r.Chance(1, 6) {
+		for a := nt; a < lc.m; a++ {
+			if r.Chance(3, 4) {
+				lc.rules = append(lc.rules, [2]int{a, r.Intn(nt)})
+			}
+		}
+		if r.Chance(1, 6) && nt == 2 { // a target that is itself redirected
+			lc.rules = append(lc.rules, [2]int{0, 1})
+		}
+	}
+	n := r.Range(4, 10)
+	for i := 0; i < n; i++ {
+		switch {
+		case r.Chance(1, 3):
+			lc.ops = append(lc.ops, age(r.Intn(nt)))
+		case r.Chance(1, 3):
+			lc.ops = append(lc.ops, ask(r.Intn(nt)))
+		default:
+			lc.ops = append(lc.ops, ask(r.Intn(lc.m)))
+		}
+	}
+	lc.ops = append(lc.ops, ask(0))
+	return lc
+}
+
 // ---------- generators ----------
 
 func baseQ() qd {
@@ -767,6 +978,26 @@ func main() {
 			d.extra = ex
 			runCtx(w, id, d)
 		}
+	}
+
+	// redirect + (lazy) cache
+	for i, lc := range lazyCatalogue() {
+		id := fmt.Sprintf("cat:lazy:%d", i)
+		if o.Want(id) {
+			runLazy(w, id, lc.lazy, lc.m, lc.rules, lc.ops)
+		}
+	}
+	nl := o.Count(80, 4000)
+	if o.N > 0 {
+		nl = o.N / 8
+	}
+	for i := 0; i < nl; i++ {
+		id := fmt.Sprintf("lazy:%d", i)
+		if !o.Want(id) {
+			continue
+		}
+		lc := genLazy(hx.NewRNG(o.Seed, id))
+		runLazy(w, id, lc.lazy, lc.m, lc.rules, lc.ops)
 	}
 
 	// sweeps on the implementation
